@@ -82,7 +82,8 @@ fn gen_lock_fault(s: &mut Sched) -> LockFault {
         0 | 1 => LockFault::NewStatePair,
         2 => LockFault::FreshPair,
         3 | 4 => LockFault::ForeignPair { pick: s.u64() % 1000 },
-        5 | 6 | 7 => LockFault::WrongBf { mode: s.usize(3) as u8 },
+        5 | 6 => LockFault::WrongBf { mode: s.usize(3) as u8 },
+        7 => LockFault::CompensatedBf { pick: s.u64() % 1000 },
         _ => LockFault::Corrupt { field: s.usize(3) as u8 },
     }
 }
